@@ -4,6 +4,7 @@ import BleveModel.Drv.C06
 import BleveModel.Drv.C15
 import BleveModel.Drv.C10
 import BleveModel.Drv.C09
+import BleveModel.Drv.C02
 
 open Bleve.Proto
 
@@ -28,6 +29,7 @@ def main (args : List String) : IO UInt32 := do
   | ["c07"] => loop stdin stdout Bleve.Drv.C07.step; stdout.flush; return 0
   | ["c10"] => loop stdin stdout Bleve.Drv.C10.step; stdout.flush; return 0
   | ["c09"] => loop stdin stdout Bleve.Drv.C09.step; stdout.flush; return 0
+  | ["c02"] => loop stdin stdout Bleve.Drv.C02.step; stdout.flush; return 0
   | ["c06"] => loop stdin stdout Bleve.Drv.C06.step; stdout.flush; return 0
   | ["c15"] => loopS stdin stdout ({} : Bleve.Drv.C15.S) Bleve.Drv.C15.step; stdout.flush; return 0
   | _ => IO.eprintln "usage: drv <driver>"; return 2
